@@ -157,6 +157,13 @@ pub fn exec(op: &str, a: &[Vec<u8>]) -> Option<Resp> {
             }
             Resp::Ok(o)
         }
+        "rs.compressed_eq" => {
+            if a[0].len() != 32 || a[1].len() != 32 {
+                return Some(Resp::Rej);
+            }
+            let e = (a[0] == a[1]) as u8;
+            Resp::Ok(vec![e, e, e, (a[0].iter().all(|x| *x == 0)) as u8])
+        }
         "rs.sum_many" => {
             let ps = need!(split32(&a[0]));
             let mut acc = Aff::IDENTITY;
